@@ -72,6 +72,25 @@ TEMPLATES = {
 }
 
 
+# other bodies under the same action names and parameter lists: two domains called "ma" of one process then
+# give the same call text different meanings
+VARIANTS = {
+    "mark": ([["?a", "agent"], ["?o", "item"]],
+             [A("has", "?a", "?o")],
+             [A("done", "?o"), L(S("increase"), L(S("total")), N(3)), L(S("when"), A("busy", "?a"), NOT(A("busy", "?a")))]),
+    "rest": ([["?a", "agent"]],
+             [A("busy", "?a")],
+             [NOT(A("busy", "?a")), L(S("assign"), L(S("load"), S("?a")), N(1)), L(S("increase"), L(S("total")), N(1, 2))]),
+    "clean": ([["?a", "agent"], ["?l", "loc"]],
+              [A("at", "?a", "?l")],
+              [A("clear", "?l"), A("busy", "?a")]),
+    "pick": ([["?a", "agent"], ["?o", "item"], ["?l", "loc"]],
+             [A("at", "?a", "?l"), A("on", "?o", "?l"), NOT(A("busy", "?a"))],
+             [NOT(A("on", "?o", "?l")), A("has", "?a", "?o"), L(S("increase"), L(S("load"), S("?a")), N(2))]),
+    "tick": ([], [], [L(S("increase"), L(S("total")), N(5, 2))]),
+}
+
+
 def gen_domain(rng):
     names = ["move", "pick", "drop"] + rng.sample(["mark", "clean", "block", "rest", "inspect", "count", "disarm", "arm", "work", "signal"], rng.choice([3, 4, 5]))
     names += rng.sample(["sweep", "seal", "stash"], rng.choice([0, 1, 2]))
@@ -79,7 +98,7 @@ def gen_domain(rng):
         names.append(rng.choice(["tick", "hush"]))
     acts = []
     for n in names:
-        params, pre, eff = TEMPLATES[n]
+        params, pre, eff = VARIANTS[n] if n in VARIANTS and rng.random() < 0.35 else TEMPLATES[n]
         acts.append(L(S(":action"), S(n), S(":parameters"), L(*typed(params)), S(":precondition"), L(S("and"), *pre),
                       S(":effect"), L(S("and"), *eff)))
     tree = L(S("define"), L(S("domain"), S("ma")), L(S(":requirements"), S(":typing")),
